@@ -1,5 +1,6 @@
 """Shared driver helpers: alphabets, stores, staging."""
 
+import errno
 import os
 
 from . import ref
@@ -77,12 +78,53 @@ def listing_of(spec, name="md5"):
     return {ent[0]: ref.digest(name, CONTENTS[ent[1]]) for ent in spec}
 
 
-def make_odb(kind, path, **config):
+class RmFaultFS(LocalFileSystem):
+    """A local file system with two injectable faults: removing a path in `deny` raises PermissionError (an
+    immutable file, a directory that belongs to someone else; `denied` counts refusals), and - `half_put` - an
+    upload that is not atomic and breaks half way."""
+
+    deny = frozenset()
+    denied = 0
+    half_put = False   # put_file writes the first half of the data in place at the final path, then fails (EIO)
+    half_puts = 0
+
+    def put_file(self, from_file, to_info, *args, **kwargs):
+        if not self.half_put:
+            return super().put_file(from_file, to_info, *args, **kwargs)
+        self.half_puts += 1
+        os.makedirs(os.path.dirname(to_info), exist_ok=True)
+        with open(from_file, "rb") as src:
+            data = src.read()
+        if os.path.lexists(to_info):
+            os.chmod(to_info, 0o644)
+        with open(to_info, "wb") as dst:
+            dst.write(data[: len(data) // 2])
+        raise OSError(errno.EIO, "injected: connection lost while uploading", to_info)
+
+    def _chk(self, path):
+        for q in [path] if isinstance(path, (str, bytes, os.PathLike)) else list(path):
+            if os.fspath(q) in self.deny:
+                self.denied += 1
+                raise PermissionError(errno.EPERM, "injected: operation not permitted", os.fspath(q))
+
+    def rm_file(self, path):
+        self._chk(path)
+        return super().rm_file(path)
+
+    def rm(self, path, recursive=False, maxdepth=None):
+        self._chk(path)
+        return super().rm(path, recursive=recursive, maxdepth=maxdepth)
+
+    remove = rm
+
+
+def make_odb(kind, path, fs=None, **config):
     os.makedirs(path, exist_ok=True)
+    fs = LFS if fs is None else fs
     if kind == "local":
-        return LocalHashFileDB(LFS, path, **config)
+        return LocalHashFileDB(fs, path, **config)
     if kind == "base":
-        return HashFileDB(LFS, path, **config)
+        return HashFileDB(fs, path, **config)
     raise ValueError(kind)
 
 
